@@ -259,6 +259,11 @@ BUILTIN_EXC_PARENT = {
     "ZeroDivisionError": "ArithmeticError",
     "OverflowError": "ArithmeticError",
     "AssertionError": "Exception",
+    "Warning": "Exception",
+    "DeprecationWarning": "Warning",
+    "UserWarning": "Warning",
+    "RuntimeWarning": "Warning",
+    "FutureWarning": "Warning",
     "AttributeError": "Exception",
     "LookupError": "Exception",
     "IndexError": "LookupError",
